@@ -47,6 +47,9 @@ def run(tier):
     scs += refused_rename_scenarios(tier)
     # final names that already exist as symbolic links to an earlier output
     scs += [dict(s, id=s["id"] + 30000, pre=[], presym=[1, 2]) for s in scs if s["id"] % 4 == 1 and "rename_fail" not in s and "prepart" not in s][:24]
+    # the same sessions run inside a clean-up routine while an unrelated exception unwinds the stack (an exporter created, used and
+    # destroyed there is an exporter like any other): what appears under a final name is complete, at every crash point too
+    scs += [dict(s, id=s["id"] + 40000, unwind=True) for s in scs if s.get("target") == "exporter" and s["id"] % 3 == 2 and "rename_fail" not in s][:18]
     # '.part' files left by an earlier run that died while producing the same names: the new outputs start afresh
     stale = [dict(s, id=s["id"] + 20000, prepart=[1, 2, 3]) for s in scs if s["id"] % 3 == 0]
     scs += stale
